@@ -15,7 +15,7 @@ EXPLANATION = ("prtpy.pack(first/best-fit[-decreasing], PartitionAndSumsTuple) c
 ASSUMPTIONS = ["0 <= value <= bin size, integers below 2^53"]
 OPEN_STATEMENTS = ["ff_17 / bf_17 : 10 * bins <= 17 * OPT (Dosa-Sgall 2013) -- tested against min_bins; proved for first-fit and best-fit with + 2 (10 * bins <= 17 * OPT + 2: C09_ff_ratio_17_partial, C09_bf_ratio_17_partial) and exactly for every OPT not congruent to 4, 7 mod 10 (first-fit: also every OPT <= 6); open for OPT = 4, 7 mod 10",
                    "ffd_11_9 : 9 * bins <= 11 * OPT + 6 (Dosa 2007) -- tested; proved: 4 * bins <= 5 * OPT + 4 for every input, 9 * bins <= 11 * OPT + 8 when no value lies in (2C/11, C/4], 9 * bins <= 11 * OPT + 16 when none lies in (8C/41, C/5] (C09_ffd_ratio_54_partial, C09_ffd_ratio_11_9_partial, C09_ffd_ratio_11_9_wide_partial)",
-                   "bfd_11_9 : 9 * bins <= 11 * OPT + 36 -- tested; proved: 4 * bins <= 5 * OPT + 4 for every input, and 9 * bins <= 11 * OPT + 8 when no value lies in (2C/11, C/4] (C09_bfd_ratio_54_partial, C09_bfd_ratio_11_9_partial)"]
+                   "bfd_11_9 : 9 * bins <= 11 * OPT + 36 -- tested; proved: 4 * bins <= 5 * OPT + 4 for every input, 9 * bins <= 11 * OPT + 8 when no value lies in (2C/11, C/4], 9 * bins <= 11 * OPT + 16 (within the property's + 36) when none lies in (8C/41, C/5] (C09_bfd_ratio_54_partial, C09_bfd_ratio_11_9_partial, C09_bfd_ratio_11_9_wide_partial); open only when some value lies in that sliver"]
 ORACLE_MAX = {"quick": 9, "thorough": 11}
 
 
